@@ -176,7 +176,7 @@ func c19() {
 		for _, pkg := range []string{".", "./internal/unix"} {
 			cmd := exec.Command("go", "list", "-f", "{{join .GoFiles \" \"}}", pkg)
 			cmd.Dir = vlib.RepoDir()
-			cmd.Env = append(os.Environ(), "GOOS="+tg.goos, "GOARCH="+tg.goarch, "CGO_ENABLED=0")
+			cmd.Env = append(os.Environ(), "GOOS="+tg.goos, "GOARCH="+tg.goarch, "CGO_ENABLED=0", "GOFLAGS=-mod=mod") // no -modfile of the harness here
 			out, err := cmd.Output()
 			if err != nil {
 				mu.Lock()
@@ -208,10 +208,8 @@ func c19() {
 		}
 	}
 	c19GoarchOverlay(run, harness, bin)
-	// thorough: the compiler asserts the constants for targets that cannot be executed here (static, listed separately)
-	if run.Thorough() {
-		c19CompileAsserts(run, o)
-	}
+	// the compiler asserts the constants for targets that cannot be executed here (static, listed separately)
+	c19CompileAsserts(run, o)
 	run.Set("executed_targets", names)
 	run.Sample(3, map[string]any{"target": "js/wasm", "result": results["js/wasm"]})
 	run.Sample(3, map[string]any{"target": "linux/386", "constants": results["linux/386"]["constants"]})
@@ -240,27 +238,50 @@ func c19CompileAsserts(run *vlib.Run, o *vlib.Oracles) {
 		"ActionUserNotify": o.Constants["SECCOMP_RET_USER_NOTIF"], "FilterFlagTSync": o.Constants["SECCOMP_FILTER_FLAG_TSYNC"], "FilterFlagLog": o.Constants["SECCOMP_FILTER_FLAG_LOG"]} {
 		src += fmt.Sprintf("\t_ = uint64(seccomp.%s) - %d\n\t_ = %d - uint64(seccomp.%s)\n", k, v, v, k)
 	}
+	// the errno constants (unexported; hook aliases): the kernel's UAPI value of the build target's own architecture -
+	// ENOSYS is 38 everywhere except on MIPS (89), EPERM is 1 everywhere
 	src += ")\n\nfunc main() {}\n"
+	errnoSrc := func(enosys int) string {
+		return fmt.Sprintf("package main\n\nimport seccomp \"github.com/elastic/go-seccomp-bpf\"\n\nconst (\n\t_ = uint64(seccomp.VerifErrnoEPERM) - 1\n\t_ = 1 - uint64(seccomp.VerifErrnoEPERM)\n\t_ = uint64(seccomp.VerifErrnoENOSYS) - %d\n\t_ = %d - uint64(seccomp.VerifErrnoENOSYS)\n)\n", enosys, enosys)
+	}
 	os.WriteFile(filepath.Join(dir, "main.go"), []byte(src), 0o644)
+	os.WriteFile(filepath.Join(dir, "errno_mips.go"), []byte("//go:build linux && (mips || mipsle || mips64 || mips64le)\n\n"+errnoSrc(89)), 0o644)
+	os.WriteFile(filepath.Join(dir, "errno_other.go"), []byte("//go:build !(linux && (mips || mipsle || mips64 || mips64le))\n\n"+errnoSrc(38)), 0o644)
 	os.WriteFile(filepath.Join(dir, "go.mod"), []byte("module c19assert\n\ngo 1.18\n\nrequire github.com/elastic/go-seccomp-bpf v0.0.0\n\nreplace github.com/elastic/go-seccomp-bpf => "+vlib.RepoDir()+"\n"), 0o644)
 	copyFile(filepath.Join(dir, "go.sum"), filepath.Join(vlib.RepoDir(), "go.sum"))
 	var ok, failed []string
-	for _, tg := range []string{"linux/arm64", "linux/arm", "linux/ppc64le", "linux/s390x", "linux/riscv64", "linux/mips64le", "linux/loong64", "android/arm64", "darwin/arm64", "windows/amd64", "freebsd/amd64", "wasip1/wasm"} {
+	var mu sync.Mutex
+	tgs := []string{"linux/arm64", "linux/arm", "linux/ppc64le", "linux/ppc64", "linux/s390x", "linux/riscv64", "linux/mips", "linux/mipsle", "linux/mips64", "linux/mips64le", "linux/loong64", "android/arm64", "darwin/arm64", "windows/amd64", "freebsd/amd64", "wasip1/wasm"}
+	vlib.Parallel(len(tgs), func(i int) {
+		tg := tgs[i]
 		p := strings.SplitN(tg, "/", 2)
-		cmd := exec.Command("go", "vet", ".")
-		cmd.Dir = dir
-		cmd.Env = append(os.Environ(), "GOOS="+p[0], "GOARCH="+p[1], "CGO_ENABLED=0")
-		if out, err := cmd.CombinedOutput(); err != nil {
+		// a directory of its own per target: the go command rewrites go.mod/go.sum
+		sub := filepath.Join(dir, strings.ReplaceAll(tg, "/", "_"))
+		os.MkdirAll(sub, 0o755)
+		for _, f := range []string{"main.go", "errno_mips.go", "errno_other.go", "go.mod", "go.sum"} {
+			copyFile(filepath.Join(sub, f), filepath.Join(dir, f))
+		}
+		cmd := exec.Command("go", "vet", "-tags", "verif", ".")
+		cmd.Dir = sub
+		cmd.Env = append(os.Environ(), "GOOS="+p[0], "GOARCH="+p[1], "CGO_ENABLED=0", "GOFLAGS=-mod=mod")
+		out, err := cmd.CombinedOutput()
+		mu.Lock()
+		defer mu.Unlock()
+		if err != nil {
 			failed = append(failed, tg)
 			if strings.Contains(string(out), "overflows") || strings.Contains(string(out), "constant") {
 				run.Violation("constant-differs-on-built-target:"+tg, fmt.Sprintf("%s: the compiler rejects the constant equalities: %s", tg, tail(string(out), 400)), map[string]any{"check": "C19", "target": tg})
 			} else {
 				run.Count("compile_assert_inconclusive", 1)
+				run.Set("compile_assert_not_run_output:"+tg, tail(string(out), 300))
 			}
 		} else {
 			ok = append(ok, tg)
+			run.Count("built_only_targets_constants_asserted_by_compiler", 1)
 		}
-	}
+	})
+	sort.Strings(ok)
+	sort.Strings(failed)
 	run.Set("built_only_targets_constants_asserted_by_compiler", ok)
 	run.Set("built_only_targets_assert_not_run", failed)
 }
